@@ -70,6 +70,11 @@ def main():
         "(the diff schema does not constrain value types, so the verdict does not depend on the model)",
         "open known findings excluded as input assumptions: %s" % ", ".join(kn),
     ]
+    if True:
+        from . import xh_cross
+        xh_cross.run(chk, ["lcs_prestate"], PROP)
+        chk.assumptions.append("CrossHair (E1) conditions are a cross-check by a second engine on List[int] inputs with symbolic "
+                               "lengths <= 3; only 'Confirmed over all paths' counts as agreement; its timeouts do not affect the verdict")
     return chk.finish()
 
 
